@@ -14,6 +14,15 @@ PROP = "C02"
 
 # Clause-by-clause map of the property to the oracle keys that judge it and the generator dimensions that exercise
 # it.  One generator kind (gen_case; thorough adds exhaustive_orders) with the dimensions named on the right.
+# "must raise / must not raise" audit.  C02's statement demands NO raise anywhere, so no key demands one (the former
+# guard-not-raised:* keys are gone; the 15 guard scenarios and the key-less tokenizer are observed only).  Keys that
+# demand a NORMAL return and the words backing them: materialize-raises:* / relabel-raises:* / colperm-raises:* /
+# both-raises:* -- "whatever the DataFrame's index labels are (non-zero-based, shuffled, non-numeric or duplicated) and
+# whatever order its columns are in" + "Materializing an equal DataFrame with a relabeled index or permuted columns
+# gives an equal TensorFrame"; reconvert-raises:* -- the same sentence applied to a later conversion of the same
+# dataset; lookup-by-name-raises:* -- "text- and image-embedded columns are merged behind the embedding columns under
+# the embedding group" (the frame lists the column there, so it is retrievable); operator-eq-raises:* -- "gives an
+# equal TensorFrame" on the inputs C08 defines equality for.
 CLAUSES = [
     ("row i (features and target) describes DataFrame row i by position, whatever the index labels are",
      ["position:<stype>", "position:y", "position:text_tokenized", "relabel-tensorframe:*", "relabel-raises:*",
@@ -40,21 +49,21 @@ CLAUSES = [
 # guards and casts: harness/c01.py ERROR_PATHS; the same numeric-representation kinds are drawn here).
 ERROR_PATHS = [
     ("requires_post_materialization: RuntimeError for tensor_frame / col_stats / num_classes before materialize()",
-     "guards: premature-tensor-frame, premature-num-classes", ["guard-not-raised:*"]),
+     "guards: premature-tensor-frame, premature-num-classes", ["observed only"]),
     ("canonicalize_col_to_pattern: ValueError when an embedder/tokenizer cfg dict misses a column; None-fill for "
      "col_to_sep / col_to_time_format", "guards: partial-embedder-cfg; forms sep/fmt=partial-dict",
-     ["guard-not-raised:partial-embedder-cfg", "position:*"]),
-    ("canonicalize_and_validate: TypeError for a pattern of the wrong type", "guards: sep-wrong-type", ["guard-not-raised:*"]),
+     ["observed only", "position:*"]),
+    ("canonicalize_and_validate: TypeError for a pattern of the wrong type", "guards: sep-wrong-type", ["observed only"]),
     ("Dataset.__init__: ValueError split_col missing / listed in col_to_stype / values outside {0,1,2}",
-     "guards: split-col-*; forms.split_col (valid use)", ["guard-not-raised:split-col-*", "position:*"]),
+     "guards: split-col-*; forms.split_col (valid use)", ["observed only", "position:*"]),
     ("Dataset.__init__: ValueError for columns missing from the frame; ValueError for a multicategorical target",
-     "guards: missing-column, multilabel-target", ["guard-not-raised:*"]),
+     "guards: missing-column, multilabel-target", ["observed only"]),
     ("task_type: assert target_col is not None; ValueError 'Task type cannot be inferred' (target neither numerical nor "
-     "categorical)", "guards: task-type-without-target, task-type-timestamp-target", ["guard-not-raised:*", "task-type"]),
+     "categorical)", "guards: task-type-without-target, task-type-timestamp-target", ["observed only", "task-type"]),
     ("num_classes: ValueError without a COUNT statistic; assert num_classes > 1",
-     "guards: num-classes-numerical-target, num-classes-one-class", ["guard-not-raised:*", "num-classes"]),
+     "guards: num-classes-numerical-target, num-classes-one-class", ["observed only", "num-classes"]),
     ("materialize(col_stats=...): assert every column / every required statistic present",
-     "guards: col-stats-missing-column, col-stats-missing-stat", ["guard-not-raised:*"]),
+     "guards: col-stats-missing-column, col-stats-missing-stat", ["observed only"]),
     ("_get_mapper: NotImplementedError for an unknown stype", "unreachable (stype is a closed enum; Gen/Tables.v)", []),
     ("__call__: target_col in df -> y, else None; _merge_feat branches (parent present / absent)",
      "with / without target, again['no-target'], FAMILY frames", ["schema-y", "reconvert:*", "schema-names"]),
@@ -89,6 +98,9 @@ TRUSTED = [
     "harness/c02.py + harness/dfgen.py (generator, plain-Python schema/position oracle, Coq literal printer)",
 ]
 ASSUMPTIONS = [
+    "no raise is demanded anywhere (C02's statement demands none): the Dataset guard scenarios and the key-less "
+    "tokenizer are observed, a raise or a normal return are both accepted, and the model's raise is compared only "
+    "when the implementation raised",
     "the public == / != of TensorFrame are exercised only on frames whose target has no missing cell: C08, which owns "
     "TensorFrame equality, restricts it to 'targets without missing values, operands of equal dtypes' (y is compared "
     "without equal_nan); with unlabeled target rows equality is judged cell by cell, NaN matching NaN positionally",
@@ -523,9 +535,9 @@ def oracle(case, obs):
     if case.get("kind") == "keyless":
         return None
     if case.get("kind") == "guards":
-        for name, exc in obs["raised"].items():
-            if exc is None:
-                return dict(key=f"guard-not-raised:{name}", what=f"the documented guard `{name}` of Dataset did not raise")
+        # C02's statement demands no raise anywhere: whether each documented guard fired is only RECORDED
+        # (stats()['guards']); a guard that stops raising is not a violation of C02.  The valid control dataset is
+        # judged ("the dataset reports the task type ... and class count that match the target column").
         if obs.get("control") != ["BINARY_CLASSIFICATION", 2, 3]:
             return dict(key="guard-control", what=f"the valid control dataset misbehaves: {obs.get('control')}")
         return None
@@ -851,10 +863,16 @@ def coq_term(case, obs):
     if case.get("kind") == "guards":
         return None
     if case.get("kind") == "keyless":
+        # the model mirrors the current code's raise: it is compared only for the orders on which the implementation
+        # raised (a tolerant implementation is not a violation of C02) and for the order that must work
         o = obs.get("orders", {})
         f = "(MkFrame [0%nat; 1%nat] {})"
-        return (f"(Bool.eqb (converts Nat.eqb None {f.format('keyless_cols')}) {C.cbool(bool(o.get('tok-first')))} && "
-                f"Bool.eqb (converts Nat.eqb None {f.format('(rev keyless_cols)')}) {C.cbool(bool(o.get('num-first')))})")
+        parts = []
+        if not o.get("tok-first"):
+            parts.append(f"negb (converts Nat.eqb None {f.format('keyless_cols')})")
+        if o.get("num-first"):
+            parts.append(f"converts Nat.eqb None {f.format('(rev keyless_cols)')}")
+        return "(" + " && ".join(parts or ["true"]) + ")"
     V = obs.get("variants", {})
     if not all(V.get(t, {}).get("ok") for t in "ABCD"):
         return None
@@ -926,8 +944,8 @@ def sanity(cases, obss):
               ["tied-categories/" + i for i in LABEL_KINDS + ["positions"]]):
         if d.get("boundaries", {}).get(k, 0) == 0:
             probs.append(f"boundary {k} never drawn")
-    if d.get("keyless_witness") != {"tok-first": False, "num-first": True}:
-        probs.append(f"the key-less tokenizer witness behaves differently from Props/C02.v: {d.get('keyless_witness')}")
+    if not d.get("keyless_witness"):
+        probs.append("the key-less tokenizer witness did not run")
     if d.get("eq_operator_uses", 0) == 0:
         probs.append("TensorFrame == never exercised")
     for k in ("numerical/first", "numerical/last", "numerical/all", "categorical/first", "categorical/last"):
